@@ -211,19 +211,25 @@ func c08StreamFactsOf(src, maxVar string) map[string]Tri {
 	return out
 }
 
-func c08Stream(fs *Facts, f *File) {
-	fd := f.Func("Gateway", "GetByIndexStream")
-	fm := f.Func("Gateway", "GetByIndexStreamFromMany")
+func c08Stream(fs *Facts, f0 *File) {
+	if f0.Func("Gateway", "GetByIndexStream") == nil || f0.Func("Gateway", "GetByIndexStreamFromMany") == nil {
+		return
+	}
+	where0 := c08At(c08Gateway, f0, f0.Func("Gateway", "GetByIndexStream"))
+	whereM := c08At(c08Gateway, f0, f0.Func("Gateway", "GetByIndexStreamFromMany"))
+	// one level of helper calls resolved (a `residualFor(plan, filters)` in place of the two statements is the same code)
+	f, fd := c07Inlined(f0, "Gateway", "GetByIndexStream", c08StreamVocabulary...)
+	f2, fm := c07Inlined(f0, "Gateway", "GetByIndexStreamFromMany", c08StreamVocabulary...)
 	if fd == nil || fm == nil {
 		return
 	}
 	c07Canon(fd, []string{"g", "in", "stream", "swampName", "err", "hydraInterface", "swampInterface", "fromTime", "toTime", "beaconType",
 		"order", "filters", "plan", "treasures", "residualFilters", "candidates", "err", "maxResults", "includeMap", "excludeMap",
 		"needsMeta", "matchCount", "treasureInterface", "key", "included", "excluded", "matched", "meta", "resp", "t", "err"})
-	where := c08At(c08Gateway, f, fd)
+	where := where0
 	one := c08StreamFactsOf(f.Str(fd.Body), "maxResults")
 	// the per-query copy: the request is `query` there
-	many := c08StreamFactsOf(strings.ReplaceAll(strings.ReplaceAll(f.Str(fm.Body), "query.", "in."), "var err error ", ""), "queryMax")
+	many := c08StreamFactsOf(strings.ReplaceAll(strings.ReplaceAll(f2.Str(fm.Body), "query.", "in."), "var err error ", ""), "queryMax")
 	oneSrc := strings.ReplaceAll(f.Str(fd.Body), "var err error ", "")
 	if len(one) > 0 && len(c08StreamFactsOf(oneSrc, "maxResults")) > 0 {
 		one = c08StreamFactsOf(oneSrc, "maxResults")
@@ -232,7 +238,7 @@ func c08Stream(fs *Facts, f *File) {
 		if mv, ok := many[k]; ok && mv == v {
 			fs.Tri(k, v, where)
 		} else {
-			fs.Tri(k, Unknown, c08At(c08Gateway, f, fm))
+			fs.Tri(k, Unknown, whereM)
 		}
 	}
 }
@@ -404,3 +410,8 @@ func c08Shapes(fs *Facts) {
 		}
 	}
 }
+
+// the functions the shapes of the two stream handlers name
+var c08StreamVocabulary = []string{"collectBucketCandidates", "applyTimeRange", "sortCandidates", "applyFromLimit", "hasAnyLabels", "PlanFilter",
+	"bucketExecPreconditions", "parseOptionalTimestamps", "buildKeySet", "evaluateNativeFilterGroup", "evaluateNativeFilterGroupWithMeta",
+	"inputIndexTypeToBeaconType", "inputOrderTypeToBeaconOrderType", "checkSwampName", "treasureToKeyValuePair", "handlePanic"}
